@@ -107,7 +107,7 @@ fn family_scope(family: &str, tier: Tier) -> String {
     match family {
         "strings" => format!("all strings of at most {} symbols over the 30-symbol alphabet, and every Unicode scalar value in 9 contexts", tier.pick(5, 7)),
         "tokens" => format!("all viable token-kind prefixes of the Kiki grammar to depth {} and all their one-token extensions, rendered to text", tier.pick(13, 16)),
-        "asts" => format!("all files of at most {} items over the 204-item alphabet of C10", tier.pick(3, 4)),
+        "asts" => format!("all files of at most {} items over the 204-item alphabet of C10; every name of the C05 pools in every naming role of six carrier grammars; every identifier of <= 4 characters over {{a, Z, _, 9}} in 7 roles", tier.pick(3, 4)),
         "grammars" => format!("all grammars of {}", grammar_specs(tier).iter().map(|s| s.name()).collect::<Vec<_>>().join(", ")),
         _ => String::new(),
     }
@@ -144,6 +144,10 @@ fn run_family(family: &str, tier: Tier, sink: &Sink) {
             });
         }
         "asts" => {
+            // every hostile or unusual name in every naming role, and every short identifier in every role
+            let mut named: Vec<String> = crate::c05::naming_sources();
+            named.extend(crate::c10::name_probe_files());
+            named.par_iter().for_each(|s| sink.feed(s));
             let m = tier.pick(3usize, 4usize);
             let items = crate::c10::item_alphabet();
             let n = items.len();
